@@ -396,7 +396,10 @@ class Driver:
             if _effect_free(st.body) and _effect_free(st.orelse):
                 return [s]
             out = []
+            guards_step = any(isinstance(n, ast.Call) and isinstance(n.func, ast.Attribute) and n.func.attr == "step" for b in st.body for n in ast.walk(b))
             for s2, c in self.evalf(st.test, s, func):
+                if guards_step:
+                    self._redundant_guards(c, s2, st)
                 for s3 in self.assume(s2.fork(), c, True):
                     out.extend(self.block(st.body, [s3], func))
                 for s3 in self.assume(s2, c, False):
@@ -594,6 +597,13 @@ class Driver:
         if isinstance(t, ast.Subscript):
             objs = self.evalf(t.value, s, func)
             _, o = objs[0]
+            if type(o) is dict:
+                # a dictionary the code built: the store is applied (on a copy owned by this state)
+                ks = self.evalf(t.slice, s, func)
+                if len(ks) == 1 and isinstance(ks[0][1], str):
+                    o2 = self._cow(s, o)
+                    o2.pop(ks[0][1], None)          # (re-inserted last: a later store wins over an earlier spread)
+                    o2[ks[0][1]] = v
             if isinstance(o, (dict, Opq, list)):
                 s.events.append(("store-sub", unparse(t), t.lineno))
                 if isinstance(o, Opq) and o.name in self.INPUT_PARAMS:
@@ -997,6 +1007,8 @@ class Driver:
             raise AnalysisError("%s:%d unsupported list method" % (func.qualname, ln))
         if isinstance(f, tuple) and f[0] == "dictmeth":
             _, d, a = f
+            if a in ("update", "setdefault", "pop"):
+                d = self._cow(s, d)         # states forked earlier share the object: change a copy owned by THIS state
             if a == "update":
                 for k, v in (args[0].items() if isinstance(args[0], dict) else []):
                     if k.startswith("**"):
@@ -1011,6 +1023,8 @@ class Driver:
                 return [(s, None)]
             if a in ("keys", "values", "items"):
                 return [(s, Opq("dict.%s" % a))]
+            if a == "get" and args and isinstance(args[0], str) and args[0] in d and not any(k.startswith("**") and list(d).index(k) > list(d).index(args[0]) for k in d):
+                return [(s, d[args[0]])]          # an entry the code itself stored, not overridden by a later spread
             if a in ("get", "pop"):
                 return [(s, Opq("dict.get"))]
             if a == "setdefault" and len(args) == 2:
@@ -1021,6 +1035,43 @@ class Driver:
         if isinstance(f, Opq):
             return self.call_opaque(f, args, kw, s, func, node)
         raise AnalysisError("%s:%d unsupported call %s" % (func.qualname, ln, unparse(node.func)))
+
+    def _redundant_guards(self, c, s, st):
+        """comparisons in the guard of a step() call that the path already implies IN EXACT ARITHMETIC.  The analysis reasons over
+        the reals; a comparison it finds always true is a second floating-point test of a fact established by another expression
+        (`t + dt >= s` earlier, `s - t <= dt` here): the two can disagree by one rounding, and the step is then skipped."""
+        atoms = []
+
+        def leaves(x):
+            if isinstance(x, CAnd):
+                leaves(x.a)
+                leaves(x.b)
+            elif isinstance(x, CAtom):
+                atoms.append(x)
+        leaves(c)
+        base = s.fork()
+        for a in atoms:
+            t = base.fork()
+            # (a comparison of TWO quantities, or the sign of their difference, is exact in floating point; one that combines
+            # three -- a sum or difference against a third -- rounds)
+            rounds = len(a.con.lin.c) >= 3
+            if rounds and not self.assume(t, a, False) and self.assume(base.fork(), a, True):
+                s.events.append(("redundant-step-guard", repr(a.con), st.lineno))
+            for b2 in self.assume(base, a, True):
+                base = b2
+                break
+
+    @staticmethod
+    def _cow(s, d):
+        """copy-on-write of a dictionary value: every name / attribute of THIS state that holds d now holds the copy"""
+        new = dict(d)
+        for k, v in list(s.env.items()):
+            if v is d:
+                s.env[k] = new
+        for k, v in list(s.attrs.items()):
+            if v is d:
+                s.attrs[k] = new
+        return new
 
     def snapshot(self, s):
         """symbolic values the rules refer to"""
